@@ -26,9 +26,10 @@ SER = "shuttle-engine/src/scheduler/serialization.rs"
 PROPS = {}
 
 PROPS["C16"] = {
-    "scope": "varint codec complete over all u64 and all byte strings the decoder can read (K); the real body of "
-             "deserialize_schedule returns for every input -- every library precondition (indexing, bit ranges, load width, "
-             "allocation size) holds -- proved unbounded on the extracted text under assumed contracts for hex/bitvec (V)",
+    "scope": "varint codec complete over all u64 and all byte strings the decoder can read (K); the real body of deserialize_schedule, for "
+             "EVERY input, returns (every library precondition holds: no panic in the decoder) and equals spec_deserialize(text) = the "
+             "mathematical decoding of the text with ALL whitespace removed: whitespace-insensitive; None exactly for not-hex / empty / "
+             "wrong magic / out-of-range header / cut short (V, unbounded, under functional contracts for hex, bitvec and the varint reader)",
     "verus_units": ["decoder"],
     "kani": [
         K("C16.varint.write_is_enc", "c16_varint_write_is_enc",
@@ -44,11 +45,11 @@ PROPS["C16"] = {
     ],
     "overlay_files": ["shuttle-engine/src/scheduler/serialization.rs.append.rs"],
     "assumptions": ["A-mem: a hex string decodes to fewer than usize::MAX/16 bytes",
-                    "assumed contracts (lane V, decoder unit): whitespace stripping and hex::decode are total; BitSlice::get returns "
-                    "None exactly when out of range; BitField::load needs 1..=usize::BITS bits; BitSlice::from_slice needs <= usize::MAX/8 bytes"],
-    "not_decided": ["round trip serialize->deserialize for whole schedules and whitespace-insensitivity: the bodies are bitvec/hex/"
-                    "iterator code outside Verus' subset, and CBMC does not finish on them even for 8-character concrete inputs "
-                    "(seeded mutant C16-ws-strip is therefore NOT caught: its rewrite anchor is lost => exit 2)"],
+                    "assumed functional contracts (lane V, decoder unit): whitespace stripping, hex::decode, the varint reader over a byte cursor, "
+                    "BitSlice::get / get(range) / BitField::load are deterministic functions of their inputs with the documented failure "
+                    "conditions (get: None exactly when out of range; load: 1..=usize::BITS bits; from_slice: <= usize::MAX/8 bytes)"],
+    "not_decided": ["serialize_schedule and the round trip serialize -> deserialize for whole schedules: bitvec/hex/iterator code outside "
+                    "Verus' subset; CBMC does not finish on it even for 8-character concrete inputs"],
 }
 
 PROPS["C15"] = {
